@@ -5,7 +5,8 @@
    - real-number side: EPSG:3857 as x = R*lambda, y = R*asinh(tan phi), its inverse, both round trips, the identification of the
      ID grid of C01 with that projection, the formulas of the third-party library as the same functions;
    - the list wrappers of shape/point.go, for EVERY behaviour of the third-party point transform (a function parameter `tr`):
-     length, order, altitude, error <-> transform error, prefix on error, unknown EPSG; refutations for the recorded defects;
+     length, order, altitude, error <-> (unknown EPSG code or transform error or NewPoint refusal), prefix on error; regression
+     Examples for the two repaired defects (D18, D19);
    - the run-time checkers decide what they are said to decide (exact rational arithmetic on the floats' values).
    NOT proved: that the third-party transform computes these real-number functions to 1e-6 m / 2e-10 degrees. That is checked on the
    code's output on every run (all cases against a float reference; sampled cases by kernel-checked CoqInterval certificates). *)
@@ -67,74 +68,89 @@ Theorem C18_northing_tolerance_in_degrees : forall y phi, - (PI / 2) < phi < PI 
 Proof. exact northing_tolerance_in_degrees. Qed.
 Print Assumptions C18_northing_tolerance_in_degrees.
 
-(* ---------------- the list wrappers, for every third-party transform `tr` (None = it returned an error) ---------------- *)
+(* ---------------- the list wrappers (control flow of /repo after the fixes e07a6eb and dbefda0), for every table `known` of EPSG codes
+   (known c = the library has the code) and every third-party transform `tr` (None = it returned an error) ---------------- *)
 
 (* forward, no error: output i is the transform of input i (same length, same order), and carries input i's altitude itself *)
-Theorem C18_forward_length_order_altitude : forall tr l crs, snd (to_projected tr l crs) = false ->
+Theorem C18_forward_length_order_altitude : forall known tr l crs, snd (to_projected known tr l crs) = false ->
   Forall2 (fun p q => exists x y z, tr geo_crs crs (plon p) (plat p) (palt p) = Some (x, y, z) /\
-                                    px q = x /\ py q = y /\ pz q = palt p) l (fst (to_projected tr l crs)).
+                                    px q = x /\ py q = y /\ pz q = palt p) l (fst (to_projected known tr l crs)).
 Proof. exact to_projected_ok. Qed.
 Print Assumptions C18_forward_length_order_altitude.
 
-(* an error is returned exactly when the transform refuses some point (both directions) *)
-Theorem C18_error_iff_transform_error : forall tr crs,
-  (forall l, snd (to_projected tr l crs) = true <-> Exists (fun p => tr geo_crs crs (plon p) (plat p) (palt p) = None) l) /\
-  (forall l, snd (to_geographic tr l crs) = true <-> Exists (fun q => tr crs geo_crs (px q) (py q) (pz q) = None) l).
+(* an error is returned exactly when the EPSG code is unknown, or the transform refuses some point, or - backward - object.NewPoint
+   refuses the coordinates the transform returned for some point *)
+Theorem C18_error_iff_transform_error : forall known tr crs,
+  (forall l, snd (to_projected known tr l crs) = true <->
+             known crs = false \/ Exists (fun p => tr geo_crs crs (plon p) (plat p) (palt p) = None) l) /\
+  (forall l, snd (to_geographic known tr l crs) = true <->
+             known crs = false \/
+             Exists (fun q => tr crs geo_crs (px q) (py q) (pz q) = None \/
+                              exists x y z, tr crs geo_crs (px q) (py q) (pz q) = Some (x, y, z) /\ snd (new_point x y (pz q)) = true) l).
 Proof. exact error_iff. Qed.
 Print Assumptions C18_error_iff_transform_error.
 
-(* the list returned together with the error holds the images of the points before the first refused one, in order *)
-Theorem C18_forward_error_returns_prefix : forall tr l crs, snd (to_projected tr l crs) = true ->
+(* for a known code, the list returned together with the error holds the images of the points before the first refused one, in order *)
+Theorem C18_forward_error_returns_prefix : forall known tr l crs, known crs = true -> snd (to_projected known tr l crs) = true ->
   exists l1 p l2, l = l1 ++ p :: l2 /\ tr geo_crs crs (plon p) (plat p) (palt p) = None /\
-                  Forall2 (fwd_rel tr crs) l1 (fst (to_projected tr l crs)).
+                  Forall2 (fwd_rel tr crs) l1 (fst (to_projected known tr l crs)).
 Proof. exact to_projected_err_prefix. Qed.
 Print Assumptions C18_forward_error_returns_prefix.
+Theorem C18_backward_error_returns_prefix : forall known tr l crs, known crs = true -> snd (to_geographic known tr l crs) = true ->
+  exists l1 q l2, l = l1 ++ q :: l2 /\ back_refused tr crs q /\ Forall2 (back_rel tr crs) l1 (fst (to_geographic known tr l crs)).
+Proof. exact to_geographic_err_prefix. Qed.
+Print Assumptions C18_backward_error_returns_prefix.
 
-(* backward, no error: output i is NewPoint(transform of input i) with NewPoint's verdict ignored; the altitude is carried itself
-   for every point NewPoint accepts, and a refused point silently becomes latitude 0, altitude 0 (finding lat_limit_overshoot) *)
-Theorem C18_backward_length_order_altitude_partial : forall tr l crs, snd (to_geographic tr l crs) = false ->
-  Forall2 (fun q g => exists x y z, tr crs geo_crs (px q) (py q) (pz q) = Some (x, y, z) /\ g = fst (new_point x y (pz q)))
-          l (fst (to_geographic tr l crs)) /\
-  Forall2 (fun q g => (back_overshoot tr crs q = false -> palt g = pz q) /\
-                      (back_overshoot tr crs q = true -> palt g = 0%float /\ plat g = 0%float)) l (fst (to_geographic tr l crs)).
+(* backward, no error: output i is the point NewPoint builds (and accepts) from the transform of input i - longitude as returned,
+   latitude truncated by SetLat - and it carries input i's altitude itself: same length, same order, altitude bit for bit.
+   (Was `_partial` while NewPoint's verdict was ignored; with dbefda0 no point is ever returned with a lost altitude.) *)
+Theorem C18_backward_length_order_altitude : forall known tr l crs, snd (to_geographic known tr l crs) = false ->
+  Forall2 (fun q g => exists x y z, tr crs geo_crs (px q) (py q) (pz q) = Some (x, y, z) /\ snd (new_point x y (pz q)) = false /\
+                                    g = {| plon := x; plat := setlat_trunc y; palt := pz q |})
+          l (fst (to_geographic known tr l crs)).
 Proof. exact to_geographic_spec. Qed.
-Print Assumptions C18_backward_length_order_altitude_partial.
+Print Assumptions C18_backward_length_order_altitude.
 
-(* there and back through one CRS without errors: same length, same order, and every point that does not overshoot keeps its altitude.
-   Partial: that longitude and latitude come back to within 2e-10 degrees is a property of the third-party transform - validated on
-   the code's output at run time, not proved *)
-Theorem C18_round_trip_structure_partial : forall tr l crs,
-  let r := round_trip tr l crs in
+(* there and back through one CRS without errors: same length, same order, every point keeps its altitude.
+   Partial: that longitude and latitude come back to within 2e-10 degrees - and that the way back does not end in an error for a valid
+   point - is a property of the third-party transform: validated on the code's output at run time, not proved (and false for points
+   high above the ellipsoid: finding alt_fed_to_datum) *)
+Theorem C18_round_trip_structure_partial : forall known tr l crs,
+  let r := round_trip known tr l crs in
   snd (fst r) = false -> snd (snd r) = false ->
   length (fst (snd r)) = length l /\
-  Forall2 (fun p g => exists q, fwd_rel tr crs p q /\ back_rel tr crs q g /\ (back_overshoot tr crs q = false -> palt g = palt p))
-          l (fst (snd r)).
+  Forall2 (fun p g => exists q, fwd_rel tr crs p q /\ back_rel tr crs q g /\ palt g = palt p) l (fst (snd r)).
 Proof. exact round_trip_shape. Qed.
 Print Assumptions C18_round_trip_structure_partial.
+(* the way back ends in an error exactly when some projected image is refused (by the transform or by NewPoint) *)
+Theorem C18_round_trip_back_error_iff : forall known tr l crs,
+  let r := round_trip known tr l crs in
+  snd (fst r) = false -> (snd (snd r) = true <-> Exists (back_refused tr crs) (fst (fst r))).
+Proof. exact round_trip_back_error. Qed.
+Print Assumptions C18_round_trip_back_error_iff.
 
-(* an EPSG code the library does not know (its transform refuses every point): conversion error - for every NON-EMPTY list *)
-Theorem C18_unknown_epsg_is_error_partial : forall tr crs,
-  (forall a b c, tr geo_crs crs a b c = None) -> (forall a b c, tr crs geo_crs a b c = None) ->
-  (forall l, l <> [] -> to_projected tr l crs = ([], true)) /\ (forall l, l <> [] -> to_geographic tr l crs = ([], true)).
-Proof. exact unknown_epsg_partial. Qed.
-Print Assumptions C18_unknown_epsg_is_error_partial.
-(* ... and false for the empty list (finding unknown_epsg_empty_list, D19) *)
-Theorem C18_unknown_epsg_empty_list_refuted :
-  exists crs, epsg_known crs = false /\
-    forall tr, to_projected tr [] crs = ([], false) /\ to_geographic tr [] crs = ([], false).
-Proof. exact unknown_epsg_empty_list_refuted. Qed.
-Print Assumptions C18_unknown_epsg_empty_list_refuted.
+(* an EPSG code the library does not have: conversion error with the empty list, for EVERY input list (the empty one included),
+   in both directions. (Was `_partial`, guarded by l <> [], before e07a6eb.) *)
+Theorem C18_unknown_epsg_is_error : forall known tr crs, known crs = false ->
+  (forall l, to_projected known tr l crs = ([], true)) /\ (forall l, to_geographic known tr l crs = ([], true)).
+Proof. exact unknown_epsg. Qed.
+Print Assumptions C18_unknown_epsg_is_error.
 
-(* finding lat_limit_overshoot (D18), with the transform's answers recorded from the library for NewPoint(139, 85.0511287798, 1e6):
-   no error, and the point comes back as (139, 0, 0) *)
-Theorem C18_lat_limit_overshoot_refuted :
-  let p := {| plon := 139; plat := c_latmax; palt := 0x1.e848p+19 |} in
-  let r := round_trip tr_d18 [p] orth_crs in
-  snd (fst r) = false /\ snd (snd r) = false /\
-  fst (snd r) = [ {| plon := 139; plat := 0; palt := 0 |} ] /\
-  back_overshoot tr_d18 orth_crs {| px := 0x1.d8360270c693ep+23; py := 0x1.31bf8457d6bb8p+24; pz := 0x1.e848p+19 |} = true.
-Proof. exact lat_limit_overshoot_refuted. Qed.
-Print Assumptions C18_lat_limit_overshoot_refuted.
+(* regression Examples for the two repaired defects: what the current control flow does on the former witnesses, and - clearly
+   HISTORICAL - what the control flow before the repairs did (old definitions kept in Project.v for this purpose only) *)
+Example C18_regression_lat_limit_overshoot_now_error :
+  round_trip epsg_known tr_d18 [p_d18] orth_crs = (([q_d18], false), ([], true)).
+Proof. exact lat_limit_overshoot_now_error. Qed.
+Example C18_HISTORICAL_lat_limit_overshoot_before_dbefda0 :
+  to_geographic_old tr_d18 [q_d18] orth_crs = ([ {| plon := 139; plat := 0; palt := 0 |} ], false).
+Proof. exact lat_limit_overshoot_historical. Qed.
+Example C18_regression_unknown_epsg_empty_list_now_error :
+  epsg_known 99999 = false /\
+  forall tr, to_projected epsg_known tr [] 99999 = ([], true) /\ to_geographic epsg_known tr [] 99999 = ([], true).
+Proof. exact unknown_epsg_empty_list_now_error. Qed.
+Example C18_HISTORICAL_unknown_epsg_empty_list_before_e07a6eb :
+  forall tr crs, to_projected_old tr [] crs = ([], false) /\ to_geographic_old tr [] crs = ([], false).
+Proof. exact unknown_epsg_empty_list_historical. Qed.
 
 (* ---------------- the run-time checkers decide what they claim ---------------- *)
 
@@ -189,9 +205,15 @@ Example C18_domain_nonvacuous : - (PI / 2) < rad 35 < PI / 2 /\ -90 < 35 < 90.
 Proof. exact domain_nonvacuous. Qed.
 Example C18_wrapper_nonvacuous :
   let tr := fun (_ _ : Z) (a b c : float) => Some ((a + a)%float, (b + 1)%float, 0%float) in
-  to_projected tr [ {| plon := 1; plat := 2; palt := 3 |}; {| plon := 1; plat := 2; palt := 4 |} ] 3857
-  = ([ {| px := 2; py := 3; pz := 3 |}; {| px := 2; py := 3; pz := 4 |} ], false).
+  let l := [ {| plon := 1; plat := 2; palt := 3 |}; {| plon := 1; plat := 2; palt := 4 |} ] in
+  to_projected epsg_known tr l 3857 = ([ {| px := 2; py := 3; pz := 3 |}; {| px := 2; py := 3; pz := 4 |} ], false) /\
+  to_projected epsg_known tr l 3395 = ([], true).
 Proof. exact to_projected_nonvacuous. Qed.
+Example C18_backward_nonvacuous :
+  let tr := fun (_ _ : Z) (a b c : float) => Some (a, b, 0%float) in
+  to_geographic epsg_known tr [ {| px := 10; py := 20; pz := 0x1.b2fffffffffffp+8 |}; {| px := 10; py := 86; pz := 7 |} ] 3857
+  = ([ {| plon := 10; plat := 20; palt := 0x1.b2fffffffffffp+8 |} ], true).
+Proof. exact to_geographic_nonvacuous. Qed.
 Example C18_checkers_nonvacuous :
   check_x 0x1.d8360270c693ep+23 139 = true /\ check_x 0x1.fc4949270b2dep+21 139 = false /\
   lon_close (-0x1.67ffffffffffep+07) 180 = true /\ lon_close 179 180 = false.
